@@ -57,6 +57,9 @@ HOSTILE_NAMES = ["We ird-Name; CANARY(3)", "A²", "A٣", "á", "x(a): pass\nCAN
                  "", "1abc", "a.b[c]", "é", "été", "日本", "'", '"', "\\", "a\nb", "lambda", "__", "_", "a" * 300, "CANARY(8)", "x=CANARY(9)",
                  "coercer", "g_coercer", "_closure_signature", "_update_wrapper", "_stub_function", "data", "ctx", "a", "match", "print",
                  "g_constructor", "constructor", "<lambda>", "f\x00g", " "]
+# names that turn into a keyword / builtin / empty string only AFTER the sanitiser has removed characters from them
+HOSTILE_NAMES += [w + d for w in ("for", "is", "not", "import", "while", "lambda", "del", "as", "None", "True", "class", "print", "len", "")
+                  for d in ("-", "!", " ", "\n", ":", "'", "\u00b2")] + ["im port", "cl-ass", " for", "\tdef", "-", "--"]
 
 
 class Evil:
